@@ -223,7 +223,6 @@ Proof.
   intros u Hu. unfold hist_of, iv_of, hs_of. cbn [iv_hist]. rewrite (assoc_map_nodes HOF (gnodes g) u Hu). reflexivity.
 Qed.
 
-Hypothesis Hw : whole_steps tmin tmax.
 
 (* node_status at any time of [tq j, tq (j+1)) (j = K: any later time) is the status after j steps *)
 Lemma iv_node_status : forall u j q, In u (gnodes g) -> (j <= K)%nat -> tq tmin j <= q -> ((j < K)%nat -> q < tq tmin (S j)) ->
